@@ -1,135 +1,132 @@
 (* C10 — without force, existing output is never touched; writes stay contained.
-   Only statements, [exact], and Print Assumptions live here. *)
+   Only statements, [exact], and Print Assumptions live here.
+
+   All three findings of this property (F10a package names with empty components, F10b ruff cache,
+   F10c swallowed model-write failure) are fixed; no finding guard is left.  The remaining
+   hypotheses are assumptions on the ENVIRONMENT: [wf_tmp] (the temporary directory and the project
+   root are disjoint) and [wf_log] (the emitters' error logs in the system temp directory are not
+   below the project root). *)
 From PG Require Import Lib.Strs Model.GenFS Proofs.GenFS.
 
-(* Full statement (FALSE on the unchanged tree, see the two refutations): the three theorems below
-   without the guards [wf_pkg] (F10a) and [guard_F10b] (F10b).  [wf_tmp] — the temporary directory
-   and the project root are disjoint — is an assumption on the environment, not a finding.
-
-   Without force, when the output package directory exists: for every file system, every package
-   layout, every spec (tags, models) and a failure injected on entry of any stage (or none), the
+(* Without force, when the output package directory exists: for every file system, package layout
+   (valid or not), spec (tags, models) and a failure injected on entry of any stage (or none), the
    part of the file system below the project root is identical afterwards — whether generation
-   returns, finds differences or fails part-way. *)
-Theorem C10_partial_noforce : forall c k s,
-  wf_tmp c = true -> guard_F10b c = true ->
+   returns, finds differences, rejects the package names or fails part-way. *)
+Theorem C10_full_noforce : forall c k s,
+  wf_tmp c = true ->
   force c = false -> exists_b s (out_dir c) = true ->
   restrict_root c (fst (generate c k s)) = restrict_root c s.
 Proof. exact noforce_untouched. Qed.
-Print Assumptions C10_partial_noforce.
+Print Assumptions C10_full_noforce.
 
-(* In every mode (force or not, existing tree or not, any failure point): every path strictly below
-   the project root that is created, rewritten or removed lies in the output package directory,
-   the core package directory, or is a package directory on the way to them / its __init__.py. *)
-Theorem C10_partial_contained : forall c k s p,
-  wf_pkg c = true -> wf_tmp c = true -> guard_F10b c = true ->
+(* In every mode (force or not, existing tree or not, any failure point, any package names): every path
+   strictly below the project root that is created, rewritten or removed lies in the output package
+   directory, the core package directory, or is a package directory on the way to them / its __init__.py. *)
+Theorem C10_full_contained : forall c k s p,
+  wf_tmp c = true ->
   In p (touched s (plan c k s)) -> sunder (root c) p = true -> allowed c p = true.
 Proof. exact contained. Qed.
-Print Assumptions C10_partial_contained.
+Print Assumptions C10_full_contained.
 
-(* The same two statements when generation is interrupted at an arbitrary point (after any number n of
-   the planned file operations, not only on entry of a stage). *)
-Theorem C10_partial_noforce_anywhere : forall c k s n,
-  wf_tmp c = true -> guard_F10b c = true ->
+(* The same when generation is interrupted after any number n of the planned file operations. *)
+Theorem C10_full_noforce_anywhere : forall c k s n,
+  wf_tmp c = true ->
   restrict_root c (exec (exec s (firstn n (plan_main c true k))) [(Final, Rmtree (tmp c))]) = restrict_root c s.
 Proof. exact noforce_untouched_anywhere. Qed.
-Print Assumptions C10_partial_noforce_anywhere.
+Print Assumptions C10_full_noforce_anywhere.
 
-Theorem C10_partial_contained_anywhere : forall c k s n p,
-  wf_pkg c = true -> wf_tmp c = true -> guard_F10b c = true ->
+Theorem C10_full_contained_anywhere : forall c k s n p,
+  wf_tmp c = true ->
   In p (touched s (firstn n (plan c k s))) -> sunder (root c) p = true -> allowed c p = true.
 Proof. exact contained_anywhere. Qed.
-Print Assumptions C10_partial_contained_anywhere.
+Print Assumptions C10_full_contained_anywhere.
 
 (* A failure INSIDE a stage: the OS refuses the first creation of a file or directory with a given base name
-   (what FileManager.write_file / ensure_dir see).  The emitters that have an except handler (client, mocks)
-   append to an error log in the system temp directory before re-raising; [wf_log]: that log is not below the
-   project root (environment assumption).  Same two conclusions, for every name, configuration and file system. *)
-Theorem C10_partial_noforce_io : forall c name s,
-  wf_tmp c = true -> wf_log c = true -> guard_F10b c = true ->
+   (what FileManager.write_file / ensure_dir see).  The client and mocks emitters append to an error log in the
+   system temp directory before re-raising. *)
+Theorem C10_full_noforce_io : forall c name s,
+  wf_tmp c = true -> wf_log c = true ->
   force c = false -> exists_b s (out_dir c) = true ->
   restrict_root c (fst (generate_io c name s)) = restrict_root c s.
 Proof. exact noforce_untouched_io. Qed.
-Print Assumptions C10_partial_noforce_io.
+Print Assumptions C10_full_noforce_io.
 
-Theorem C10_partial_contained_io : forall c name s p,
-  wf_pkg c = true -> wf_tmp c = true -> wf_log c = true -> guard_F10b c = true ->
+Theorem C10_full_contained_io : forall c name s p,
+  wf_tmp c = true -> wf_log c = true ->
   In p (touched s (plan_io c name s)) -> sunder (root c) p = true -> allowed c p = true.
 Proof. exact contained_io. Qed.
-Print Assumptions C10_partial_contained_io.
+Print Assumptions C10_full_contained_io.
 
-(* ... and the call raises, unless the refusal hits a model module, where it is swallowed (F10c) *)
-Theorem C10_partial_io_raises : forall c name s,
-  io_refused c name s = true -> guard_F10c c name s = true -> exists st, snd (generate_io c name s) = FailIO st.
+(* ... and the call raises *)
+Theorem C10_full_io_raises : forall c name s,
+  io_refused c name s = true -> exists st, snd (generate_io c name s) = FailIO st.
 Proof. exact io_raises. Qed.
-Print Assumptions C10_partial_io_raises.
+Print Assumptions C10_full_io_raises.
 
-Theorem C10_refuted_F10c :
-  wf_pkg cfg_F10c = true /\ wf_tmp cfg_F10c = true /\ wf_log cfg_F10c = true /\ guard_F10b cfg_F10c = true
-  /\ force cfg_F10c = false /\ exists_b fs_F10c (out_dir cfg_F10c) = true
-  /\ guard_F10c cfg_F10c (s_pet ++ s_dot_tmp) fs_F10c = false
-  /\ io_refused cfg_F10c (s_pet ++ s_dot_tmp) fs_F10c = true
-  /\ snd (generate_io cfg_F10c (s_pet ++ s_dot_tmp) fs_F10c) = Returned Ok.
-Proof. exact refuted_F10c. Qed.
-Print Assumptions C10_refuted_F10c.
-
-Theorem C10_io_nonvacuous :
-  wf_pkg cfg_ok_force = true /\ wf_log cfg_ok_force = true
-  /\ snd (generate_io cfg_ok_force s_client_py fs_ok) = FailIO Client
-  /\ lookup (sys_tmp cfg_ok_force ++ [s_error_log]) (fst (generate_io cfg_ok_force s_client_py fs_ok)) = Some (File 1)
-  /\ snd (generate_io cfg_ok s_mock_client fs_ok) = FailIO Mocks
-  /\ (length (filter (sunder pR) (touched fs_ok (plan_io cfg_ok_force s_client_py fs_ok))) > 30)%nat.
-Proof. exact io_nonvacuous. Qed.
-Print Assumptions C10_io_nonvacuous.
-
-(* The call returns iff no stage failed and (in the diff path) nothing differs; it fails with the
-   injected stage iff that stage is reached. *)
+(* The call returns iff no stage failed, the package names are valid and (in the diff path) nothing
+   differs; it fails with the injected stage iff that stage is reached. *)
 Theorem C10_result : forall c k s,
   snd (generate c k s) = Ok <->
-  fails k (stages (diff_mode c s) (post c)) = false
+  fails k (run_stages c (diff_mode c s)) = false /\ valid_pkgs c = true
   /\ diff_mode c s && has_diff c (exec s (plan_main c (diff_mode c s) k)) = false.
 Proof. exact result_ok_iff. Qed.
 Print Assumptions C10_result.
 
 Theorem C10_result_fail : forall c k s f,
-  snd (generate c k s) = Fail f <-> k = Some f /\ fails k (stages (diff_mode c s) (post c)) = true.
+  snd (generate c k s) = Fail f <-> k = Some f /\ fails k (run_stages c (diff_mode c s)) = true.
 Proof. exact result_fail_iff. Qed.
 Print Assumptions C10_result_fail.
 
-(* output_package "." with force: the sentinel file at the project root is removed, and it is not
-   an allowed path *)
-Theorem C10_refuted_F10a :
-  wf_pkg cfg_F10a = false /\ wf_tmp cfg_F10a = true /\ guard_F10b cfg_F10a = true
-  /\ In (pR ++ [s_sentinel]) (touched fs0 (plan cfg_F10a None fs0))
-  /\ sunder (root cfg_F10a) (pR ++ [s_sentinel]) = true
-  /\ allowed cfg_F10a (pR ++ [s_sentinel]) = false
-  /\ lookup (pR ++ [s_sentinel]) (fst (generate cfg_F10a None fs0)) = None.
-Proof. exact refuted_F10a. Qed.
-Print Assumptions C10_refuted_F10a.
+(* package names that are not dotted identifiers are rejected before anything is touched *)
+Theorem C10_invalid_rejected : forall c s,
+  valid_pkgs c = false -> generate c None s = (s, Invalid) /\ plan c None s = [].
+Proof. exact invalid_rejected. Qed.
+Print Assumptions C10_invalid_rejected.
 
-(* post-processing started from the project root, no force, existing package: the tree changes *)
-Theorem C10_refuted_F10b :
-  wf_pkg cfg_F10b = true /\ wf_tmp cfg_F10b = true /\ guard_F10b cfg_F10b = false
-  /\ force cfg_F10b = false /\ exists_b fs1 (out_dir cfg_F10b) = true
-  /\ restrict_root cfg_F10b (fst (generate cfg_F10b None fs1)) <> restrict_root cfg_F10b fs1
-  /\ In (pR ++ [s_ruff_cache]) (touched fs1 (plan cfg_F10b None fs1))
-  /\ allowed cfg_F10b (pR ++ [s_ruff_cache]) = false.
-Proof. exact refuted_F10b. Qed.
-Print Assumptions C10_refuted_F10b.
+(* regressions: the witnesses of the fixed findings *)
+Theorem C10_fixed_F10a :
+  valid_pkgs cfg_F10a = false /\ generate cfg_F10a None fs0 = (fs0, Invalid) /\ touched fs0 (plan cfg_F10a None fs0) = [].
+Proof. exact fixed_F10a. Qed.
+Print Assumptions C10_fixed_F10a.
 
-Theorem C10_guard_nonvacuous :
-  wf_pkg cfg_ok = true /\ wf_tmp cfg_ok = true /\ guard_F10b cfg_ok = true
+Theorem C10_fixed_F10b :
+  valid_pkgs cfg_F10b = true /\ post cfg_F10b = true /\ cwd cfg_F10b = root cfg_F10b
+  /\ restrict_root cfg_F10b (fst (generate cfg_F10b None fs1)) = restrict_root cfg_F10b fs1
+  /\ snd (generate cfg_F10b None fs1) = DiffFound.
+Proof. exact fixed_F10b. Qed.
+Print Assumptions C10_fixed_F10b.
+
+Theorem C10_fixed_F10c :
+  valid_pkgs cfg_F10c = true /\ force cfg_F10c = false /\ exists_b fs_F10c (out_dir cfg_F10c) = true
+  /\ io_refused cfg_F10c (s_pet ++ s_dot_tmp) fs_F10c = true
+  /\ snd (generate_io cfg_F10c (s_pet ++ s_dot_tmp) fs_F10c) = FailIO Models
+  /\ restrict_root cfg_F10c (fst (generate_io cfg_F10c (s_pet ++ s_dot_tmp) fs_F10c)) = restrict_root cfg_F10c fs_F10c.
+Proof. exact fixed_F10c. Qed.
+Print Assumptions C10_fixed_F10c.
+
+Theorem C10_nonvacuous :
+  valid_pkgs cfg_ok = true /\ wf_tmp cfg_ok = true
   /\ exists_b fs_ok (out_dir cfg_ok) = true
   /\ snd (generate cfg_ok None fs_ok) = DiffFound
   /\ snd (generate cfg_ok (Some Models) fs_ok) = Fail Models
   /\ (length (touched fs_ok (plan cfg_ok None fs_ok)) > 40)%nat
   /\ lookup pT (fst (generate cfg_ok (Some Models) fs_ok)) = None.
 Proof. exact guard_nonvacuous. Qed.
-Print Assumptions C10_guard_nonvacuous.
+Print Assumptions C10_nonvacuous.
 
-Theorem C10_guard_nonvacuous_force :
-  wf_pkg cfg_ok_force = true /\ guard_F10b cfg_ok_force = true
+Theorem C10_nonvacuous_force :
+  valid_pkgs cfg_ok_force = true /\ wf_tmp cfg_ok_force = true
   /\ snd (generate cfg_ok_force None fs_ok) = Ok
   /\ (length (filter (sunder pR) (touched fs_ok (plan cfg_ok_force None fs_ok))) > 40)%nat
   /\ lookup (pR ++ [s_sentinel]) (fst (generate cfg_ok_force None fs_ok)) = Some (File 1).
 Proof. exact guard_nonvacuous_force. Qed.
-Print Assumptions C10_guard_nonvacuous_force.
+Print Assumptions C10_nonvacuous_force.
+
+Theorem C10_io_nonvacuous :
+  valid_pkgs cfg_ok_force = true /\ wf_log cfg_ok_force = true
+  /\ snd (generate_io cfg_ok_force s_client_py fs_ok) = FailIO Client
+  /\ lookup (sys_tmp cfg_ok_force ++ [s_error_log]) (fst (generate_io cfg_ok_force s_client_py fs_ok)) = Some (File 1)
+  /\ snd (generate_io cfg_ok s_mock_client fs_ok) = FailIO Mocks
+  /\ (length (filter (sunder pR) (touched fs_ok (plan_io cfg_ok_force s_client_py fs_ok))) > 30)%nat.
+Proof. exact io_nonvacuous. Qed.
+Print Assumptions C10_io_nonvacuous.
